@@ -58,25 +58,29 @@ structure Found where
   to : Nat
 deriving Repr, DecidableEq
 
+def betweenOf (o : Option LegInfo) : List Nat :=
+  match o with
+  | some li => li.between
+  | none => []
+
+/-- the four tests of one (i, idx) pair, in the order of the code: (case, stop) -/
+def pairCase (ignore : List Nat) (oi : Option LegInfo) (cur : LegInfo) : Option (Nat × Nat) :=
+  let bi := betweenOf oi
+  if ¬ bi.isEmpty ∧ bi.contains cur.last ∧ ¬ ignore.contains cur.last then some (1, cur.last)
+  else if ¬ cur.between.isEmpty ∧ ((oi.map (·.last)).any fun l => cur.between.contains l && !ignore.contains l) then
+    some (2, (oi.map (·.last)).getD 0)
+  else if ¬ bi.isEmpty ∧ bi.contains cur.first ∧ ¬ ignore.contains cur.first then some (3, cur.first)
+  else if ¬ bi.isEmpty ∧ ¬ cur.between.isEmpty then
+    (bi.find? (fun nd => cur.between.contains nd && !ignore.contains nd)).map fun nd => (4, nd)
+  else none
+
 /-- the inner `for (i = 0; i < journeyStepIdx; i++)` search for step `idx` -/
 def searchPair (ignore : List Nat) (infos : List (Option LegInfo)) (idx : Nat) (cur : LegInfo) : Nat → Nat → Option Found
   | _, 0 => none
   | i, n+1 =>
-    let bi : List Nat := match infos.getD i none with
-      | some li => li.between
-      | none => []
-    let lasti : Option Nat := (infos.getD i none).map (·.last)
-    if ¬ bi.isEmpty ∧ bi.contains cur.last ∧ ¬ ignore.contains cur.last then
-      some ⟨1, cur.last, i, idx⟩
-    else if ¬ cur.between.isEmpty ∧ (lasti.any fun l => cur.between.contains l && !ignore.contains l) then
-      some ⟨2, lasti.getD 0, i, idx⟩
-    else if ¬ bi.isEmpty ∧ bi.contains cur.first ∧ ¬ ignore.contains cur.first then
-      some ⟨3, cur.first, i, idx⟩
-    else
-      match (if ¬ bi.isEmpty ∧ ¬ cur.between.isEmpty then
-               bi.find? (fun nd => cur.between.contains nd && !ignore.contains nd) else none) with
-      | some nd => some ⟨4, nd, i, idx⟩
-      | none => searchPair ignore infos idx cur (i+1) n
+    match pairCase ignore (infos.getD i none) cur with
+    | some (c, nd) => some ⟨c, nd, i, idx⟩
+    | none => searchPair ignore infos idx cur (i+1) n
 
 /-- the outer `for (auto & journeyStep : journey)` search -/
 def searchJourney (ds : Dataset) (ignore : List Nat) : List JStep → Nat → List (Option LegInfo) → Option Found
